@@ -213,98 +213,240 @@ class Sym:
             return None  # the use is inside a loop that can carry a later definition around
         return out
 
+    # ---- if-conversion: value of a mutable local at a program point as nested selects over branch conditions
+    def _last_def_in(self, l, b, before):
+        best = None
+        for d in self.fn.defs().get(l, []):
+            if d[0] != b or d[2] == "partial":
+                continue
+            di = d[1]
+            if di == "t":
+                if before is None:
+                    return d
+                continue
+            if before is None or before == "t" or di < before:
+                if best is None or di > best[1]:
+                    best = d
+        return best
+
     def _value_at(self, l, pos, depth, subst):
+        b, i = pos
+        d = self._last_def_in(l, b, i)
+        if d is not None:
+            return self._def_expr(l, d, depth, subst)
+        v = self._value_at_entry(l, b, depth, subst, set())
+        if v is None:
+            v = self._value_by_paths(l, pos, depth, subst)
+        return v
+
+    def _value_by_paths(self, l, pos, depth, subst):
+        """decision tree over the branch decisions of every acyclic path from the region head to the use
+        (handles short-circuit || / && and any mix of nested and sequential branches)"""
         fn = self.fn
         R = self._reaching_defs(l, pos)
-        if not R:
+        if not R or len(R) > 12:
             return None
-        R = sorted(R, key=lambda d: (d[0], 0 if d[1] == "t" else 1, d[1] if d[1] != "t" else 0))
-        if len(R) == 1:
-            return self._def_expr(l, R[0], depth, subst)
-        if len(R) > 4:
+        b0 = pos[0]
+        blocks = [d[0] if d[0] >= 0 else 0 for d in R] + [b0]
+        chains = [self._dom_chain(x) for x in blocks]
+        common = [x for x in chains[0] if all(x in c for c in chains[1:])]
+        if not common:
             return None
-        if len(R) > 2:
-            # peel the definition that sits in one arm of a switch which all the others precede
-            idom = fn.dominators()
-            for db in R:
-                bb = db[0]
-                cur = bb
-                guard = 0
-                while cur in idom and idom[cur] != cur and guard < 200:
-                    guard += 1
-                    cur = idom[cur]
-                    t = fn.blocks[cur].term
-                    if t[0] != "switch" or len(t[2]) != 1:
-                        continue
-                    zero_t, other_t, val0 = t[2][0][1], t[3], t[2][0][0]
-                    arm_b = None
-                    for tgt in (zero_t, other_t):
-                        if fn.dominates(tgt, bb) and self.edge_dominates(cur, tgt, bb):
-                            arm_b = tgt
-                    if arm_b is None:
-                        continue
-                    others = [x for x in R if x != db]
-                    if all((x[0] == cur) or (x[0] == -1) or (fn.dominates(x[0], cur) or self._reaches(x[0], cur)) and not fn.dominates(arm_b, x[0]) for x in others):
-                        saved = getattr(self, "_pos", None)
-                        self._pos = (cur, "t")
-                        cond = self.operand(t[1], depth + 1, subst)
-                        rest = self._value_at(l, (cur, "t"), depth + 1, subst)
-                        self._pos = saved
-                        if rest is None:
-                            break
-                        vb = self._def_expr(l, db, depth, subst)
-                        if arm_b == zero_t:
-                            return ("select", cond, rest, vb) if val0 == 0 else ("select", ("bin", "Eq", cond, ("const", val0)), vb, rest)
-                        return ("select", cond, vb, rest) if val0 == 0 else ("select", ("bin", "Eq", cond, ("const", val0)), rest, vb)
-                    break
+        head = common[0]
+        # enumerate acyclic paths head -> b0
+        paths = []
+        limit = [0]
+
+        def dfs(b, path, decisions, last):
+            if limit[0] > 400:
+                return False
+            d = self._last_def_in(l, b, pos[1] if b == b0 and len(path) > 0 or b == b0 else None)
+            if b == b0:
+                dd = self._last_def_in(l, b, pos[1])
+                if dd is not None:
+                    last = dd
+                limit[0] += 1
+                paths.append((tuple(decisions), last))
+                return True
+            dd = self._last_def_in(l, b, None)
+            if dd is not None:
+                last = dd
+            t = fn.blocks[b].term
+            for sx in fn.succs(b):
+                if sx in path or fn.blocks[sx].cleanup:
+                    continue
+                if not self._reaches(sx, b0):
+                    continue
+                dec = decisions
+                if t[0] == "switch":
+                    vals = [v for v, tgt in t[2] if tgt == sx]
+                    if sx == t[3] and not vals:
+                        key = ("other",)
+                    elif len(vals) == 1:
+                        key = ("eq", vals[0])
+                    else:
+                        key = ("in", tuple(vals))
+                    dec = decisions + [(b, key)]
+                if not dfs(sx, path | {sx}, dec, last):
+                    return False
+            return True
+        start_def = None
+        for d in fn.defs().get(l, []):
+            if d[2] == "arg":
+                start_def = d
+        # value entering the head: the unique def dominating head, if any
+        hd = self._reaching_defs(l, (head, 0))
+        if hd and len(hd) == 1:
+            start_def = next(iter(hd))
+        if not dfs(head, {head}, [], start_def):
             return None
-        d1, d2 = R
-        # find a bool/discriminant switch separating them
-        for (da, db) in ((d1, d2), (d2, d1)):
-            # case (a): both in different arms of one switch; case (b): da dominates the switch, db in one arm
-            ba, bb = da[0], db[0]
-            idom = fn.dominators()
-            cur = bb
-            guard = 0
-            while cur in idom and idom[cur] != cur and guard < 200:
-                guard += 1
-                prev = cur
-                cur = idom[cur]
-                t = fn.blocks[cur].term
-                if t[0] != "switch" or len(t[2]) != 1:
-                    continue
-                # which successor leads to db ?
-                zero_t, other_t = t[2][0][1], t[3]
-                val0 = t[2][0][0]
-                arm_b = None
-                for tgt in (zero_t, other_t):
-                    if fn.dominates(tgt, bb) and self.edge_dominates(cur, tgt, bb):
-                        arm_b = tgt
-                if arm_b is None:
-                    continue
-                other = other_t if arm_b == zero_t else zero_t
-                # da must reach through the other arm (in it) or dominate the switch
-                in_other = fn.dominates(other, ba) and self.edge_dominates(cur, other, ba)
-                before = (ba == cur) or (fn.dominates(ba, cur) and ba != bb)
-                if not (in_other or before):
-                    continue
-                saved = getattr(self, "_pos", None)
-                self._pos = (cur, "t")
-                cond = self.operand(t[1], depth + 1, subst)
-                self._pos = saved
-                vb = self._def_expr(l, db, depth, subst)
-                va = self._def_expr(l, da, depth, subst)
-                # truth of cond on the arm leading to db
-                if arm_b == zero_t:
-                    cond_b = ("bin", "Eq", cond, ("const", val0))
-                    if val0 == 0:
-                        return ("select", cond, va, vb)   # cond true -> other arm (da)
-                    return ("select", cond_b, vb, va)
+        if not paths or any(p[1] is None for p in paths):
+            return None
+
+        def build(ps, k):
+            defs = set(p[1] for p in ps)
+            if len(defs) == 1:
+                return self._def_expr(l, next(iter(defs)), depth, subst)
+            # split on the k-th decision (all paths in ps share decisions[:k])
+            if any(len(p[0]) <= k for p in ps):
+                return None
+            blk = ps[0][0][k][0]
+            if any(p[0][k][0] != blk for p in ps):
+                return None
+            t = fn.blocks[blk].term
+            groups = {}
+            for p in ps:
+                groups.setdefault(p[0][k][1], []).append(p)
+            saved = getattr(self, "_pos", None)
+            self._pos = (blk, "t")
+            cond = self.operand(t[1], depth + 1, subst)
+            self._pos = saved
+            sub = {}
+            for key, g in groups.items():
+                v = build(g, k + 1)
+                if v is None:
+                    return None
+                sub[key] = v
+            if len(set(repr(v) for v in sub.values())) == 1:
+                return next(iter(sub.values()))
+            if t[4] == "bool" and len(t[2]) == 1 and t[2][0][0] == 0:
+                vt, vf = sub.get(("other",)), sub.get(("eq", 0))
+                if vt is None or vf is None:
+                    return None
+                return ("select", cond, vt, vf)
+            e = sub.get(("other",))
+            keys = [k2 for k2 in sub if k2[0] == "eq"]
+            if e is None:
+                if not keys:
+                    return None
+                e = sub[keys[-1]]
+                keys = keys[:-1]
+            for k2 in reversed(keys):
+                e = ("select", ("bin", "Eq", cond, ("const", k2[1])), sub[k2], e)
+            return e
+        return build(paths, 0)
+
+    def _value_at_exit(self, l, b, depth, subst, busy):
+        d = self._last_def_in(l, b, None)
+        if d is not None:
+            return self._def_expr(l, d, depth, subst)
+        return self._value_at_entry(l, b, depth, subst, busy)
+
+    def _value_at_entry(self, l, b, depth, subst, busy):
+        fn = self.fn
+        if b in busy or len(busy) > 60 or depth > 22:
+            return None
+        if b == 0:
+            argd = [x for x in fn.defs().get(l, []) if x[2] == "arg"]
+            return self._def_expr(l, argd[0], depth, subst) if argd else None
+        preds = [p for p in fn.preds(b) if not fn.blocks[p].cleanup]
+        if not preds:
+            return None
+        busy = busy | {b}
+        if len(preds) == 1:
+            return self._value_at_exit(l, preds[0], depth, subst, busy)
+        return self._merge(l, b, frozenset(preds), depth, subst, busy, 0)
+
+    def _merge(self, l, join, preds, depth, subst, busy, rec):
+        """value flowing into `join` over the edges from `preds`"""
+        fn = self.fn
+        if rec > 10:
+            return None
+        if len(preds) == 1:
+            return self._value_at_exit(l, next(iter(preds)), depth, subst, busy)
+        chains = [self._dom_chain(p) for p in preds]
+        common = [x for x in chains[0] if all(x in c for c in chains[1:])]
+        for D in common:
+            t = fn.blocks[D].term
+            if t[0] != "switch":
+                continue
+            succ = []
+            for v, tgt in t[2]:
+                succ.append((v, tgt))
+            groups = {}
+            okk = True
+            for p in preds:
+                owner = None
+                if p == D:
+                    # the edge D -> join itself: the arm(s) whose target is the join
+                    owner = ("direct", join)
                 else:
-                    if val0 == 0:
-                        return ("select", cond, vb, va)   # cond != 0 -> db
-                    return ("select", ("bin", "Eq", cond, ("const", val0)), va, vb)
+                    for tgt in set([x[1] for x in succ] + [t[3]]):
+                        if tgt != join and fn.dominates(tgt, p) and self.edge_dominates(D, tgt, p):
+                            owner = ("arm", tgt)
+                if owner is None:
+                    okk = False
+                    break
+                groups.setdefault(owner, set()).add(p)
+            if not okk or len(groups) < 2:
+                continue
+            vals = {}
+            for g, ps in groups.items():
+                v = self._merge(l, join, frozenset(ps), depth + 1, subst, busy, rec + 1)
+                if v is None:
+                    return None
+                vals[g] = v
+            if len(set(repr(v) for v in vals.values())) == 1:
+                return next(iter(vals.values()))
+            saved = getattr(self, "_pos", None)
+            self._pos = (D, "t")
+            cond = self.operand(t[1], depth + 1, subst)
+            self._pos = saved
+
+            def arm_val(tgt):
+                if ("arm", tgt) in vals:
+                    return vals[("arm", tgt)]
+                if tgt == join and ("direct", join) in vals:
+                    return vals[("direct", join)]
+                return None
+            other = arm_val(t[3])
+            if other is None:
+                return None
+            # bool switch [0: f, otherwise: t]
+            if len(t[2]) == 1 and t[2][0][0] == 0 and t[4] == "bool":
+                f0 = arm_val(t[2][0][1])
+                if f0 is None:
+                    return None
+                return ("select", cond, other, f0)
+            e = other
+            for v, tgt in reversed(t[2]):
+                av = arm_val(tgt)
+                if av is None:
+                    return None
+                e = ("select", ("bin", "Eq", cond, ("const", v)), av, e)
+            return e
         return None
+
+    def _dom_chain(self, b):
+        fn = self.fn
+        idom = fn.dominators()
+        out = [b]
+        guard = 0
+        while b in idom and idom[b] != b and guard < 500:
+            b = idom[b]
+            out.append(b)
+            guard += 1
+        return out
 
     def rvalue(self, rv, depth=0, subst=None):
         k = rv[0]
